@@ -13,9 +13,13 @@ func (r *c08Result) String() string               { return fmt.Sprint("r", r.id)
 func (r *c08Result) ID() string                   { return fmt.Sprint("r", r.id) }
 func (r *c08Result) MarshalJSON() ([]byte, error) { return []byte(fmt.Sprint(r.id)), nil }
 
-type c08Err struct{ id int }
+type c08Err struct {
+	id    int
+	cause error
+}
 
 func (e *c08Err) Error() string { return fmt.Sprint("probe ", e.id, " failed") }
+func (e *c08Err) Unwrap() error { return e.cause }
 
 // outcome of a probe: 0 nothing detected, 1 a record, 2 an error
 type c08Scanner struct {
@@ -27,6 +31,7 @@ type c08Scanner struct {
 	cancel   func()
 	gate     chan struct{}
 	gateAt   int
+	errKinds bool
 }
 
 func (s *c08Scanner) Scan(ctx context.Context, r *Request) (Result, error) {
@@ -48,7 +53,17 @@ func (s *c08Scanner) Scan(ctx context.Context, r *Request) (Result, error) {
 	case 1:
 		return &c08Result{id}, nil
 	case 2:
-		return nil, &c08Err{id}
+		e := &c08Err{id: id}
+		if s.errKinds {
+			// a probe's own failure may wrap anything - also its own time-out while the scan is alive
+			switch verifConcretize(uint64(ndU8("errKind") % 3)) {
+			case 1:
+				e.cause = context.DeadlineExceeded
+			case 2:
+				e.cause = context.Canceled
+			}
+		}
+		return nil, e
 	}
 	return nil, nil
 }
@@ -87,7 +102,7 @@ var errC08Req = errors.New("bad target entry")
 // reported once, completion only after the last probe.
 func VerifH_C08_engine() {
 	K, W := verifParam("K", 2), verifParam("W", 2)
-	sc := &c08Scanner{cancelAt: -1}
+	sc := &c08Scanner{cancelAt: -1, errKinds: verifParam("ERRKINDS", 0) == 1}
 	var reqs []*Request
 	isErrReq := make([]bool, K)
 	for i := 0; i < K; i++ {
@@ -293,5 +308,43 @@ func VerifH_C12_mergeErr() {
 		n++
 	}
 	verifAssert(n <= n1+n2, "merged stream invented an error")
+	verifCover("done")
+}
+
+// VerifH_C08_resultChan: the real result channel with a small capacity and an output side that
+// starts late: K records put by a probe worker all come out, once each, in order.
+func VerifH_C08_resultChan() {
+	K := verifParam("K", 5)
+	ctx, cancel := context.WithCancel(context.Background())
+	rc := NewResultChan(ctx, verifParam("CAP", 1))
+	go func() {
+		for i := 0; i < K; i++ {
+			rc.Put(&c08Result{i})
+			if ndBool("pauseAfterPut") {
+				verifYield()
+			}
+		}
+	}()
+	time.Sleep(time.Millisecond) // a stalled output: everything that fits is queued
+	var got []int
+	for len(got) < K {
+		select {
+		case r, ok := <-rc.Chan():
+			if !ok {
+				verifAssert(false, "result stream ended although the scan is still alive")
+				cancel()
+				return
+			}
+			got = append(got, r.(*c08Result).id)
+		case <-time.After(time.Second):
+			verifAssert(false, "a record that was put is never delivered (lost under back-pressure)")
+			cancel()
+			return
+		}
+	}
+	for i, id := range got {
+		verifAssert(id == i, "records reordered, duplicated or replaced under back-pressure")
+	}
+	cancel()
 	verifCover("done")
 }
